@@ -21,6 +21,9 @@ CHECKS = {
  'C17': dict(cat='proof', tech='contract-based deductive verification: real partition_parallel AST against a stable-counting-sort spec (ghost prefix counts H/G, DEST), loop invariants for both prange passes and inner loops, prange footprint disjointness, inductive lemmas (monotonicity, split, total, injectivity, prefix link) in z3/cvc5; numpy prefix-sum idiom as an assumed block contract; bounded compiled cross-check',
     text='For all inputs (any N incl. 0, npartition >= 1, coord, weights on/off, every nthread >= 1): keys = clamped floor(x*np/box) in range, psort[DEST(q)] = pos[q], wsort[DEST(q)] = weights[q], starts[k] = #{key < k}, starts[np] = N, non-decreasing; DEST injective, in range, stable and inside its stripe (lemmas by induction); inputs unmodified; all subscripts in bounds; int32 stores fit; iteration footprints of both parallel passes disjoint. sort=True and float edge effects only bounded.',
     note='assumed: np.linspace/astype monotone 0..N, cumsum-reshape-transpose idiom = (stripe, thread)-ordered exclusive prefix sums, np.empty/zeros; floats as reals; L2 (injective self-map of a finite set is a permutation, Lean-checked statement) ; prange meta-theorem', ref='6/C17'),
+ 'C08': dict(cat='proof', tech='contract-based deductive verification (assertional refinement on the real loop nests of bin_kmu/bin_kppi): fold, placement, multiplicity and no-drop obligations at each continue/break/increment, search-loop invariants with variants, per-thread reduction planes, bounds; Legendre P_n by exact polynomial identity on the real P_n/n_choose_k/factorial code; z3; brute-force full-mesh cross-check',
+    text='For every mesh size n >= 1 (odd and even), every non-negative edge array, mu edges from 0 to >= 1, any thread count: each visited half-mesh mode has |k|^2 = freq(i)^2+freq(j)^2+k^2 with the documented fold, is added to a cell whose edges bracket |k|^2 and mu^2, with multiplicity 1 on the kz=0 and Nyquist planes and 2 otherwise; a mode is skipped only outside [first, last) edge and a loop is left only when every remaining iteration lies beyond the last edge; per-thread accumulators only touch their own plane; no subscript out of bounds. P_n(mu^2, n) = Legendre_n(mu) for n = 0..10. Final sums/means rely on the trusted sum-of-update lemma and are cross-checked by brute force over the full n^3 mesh.',
+    note='floats as reals; edge-array squaring and linspace as block contracts; L1/L4 trusted; get_thread_id contract assumed', ref='6/C08'),
 }
 NOT_YET = {}
 props = [json.loads(l) for l in open(os.path.join(HERE, 'properties.jsonl'))]
